@@ -21,7 +21,7 @@ class Model:
     def result_type(self, method):
         return None
 
-    def fused(self, method):
+    def fused(self, method, t=None):
         """True if the operation may execute atomically with the preceding visible operation of
         the same thread (reads whose result no other thread can change, ghost observations)."""
         return False
@@ -43,7 +43,7 @@ class SemModel(Model):
         return {"acquire": "bool", "_is_mine": "bool", "_count": "int", "_get_value": "int",
                 "_is_zero": "bool", "release": None}[method]
 
-    def fused(self, method):
+    def fused(self, method, t=None):
         # _is_mine()/_count() of the calling thread cannot be changed by another thread: if the
         # caller owns the lock nobody else can acquire it, if it does not, nobody can make it the owner
         return method in ("_is_mine", "_count")
@@ -128,7 +128,7 @@ class ObsModel(Model):
     def result_type(self, method):
         return self.methods[method][1]
 
-    def fused(self, method):
+    def fused(self, method, t=None):
         return self.methods[method][3] if len(self.methods[method]) > 3 else False
 
     def outcomes(self, method, args, kwargs, t, S):
